@@ -1,4 +1,5 @@
 """C09/C10/C11 facts: LB_Keogh envelope range, Euclidean distance shape, band laws, point distances, n-D siblings."""
+import os
 from ..cfront import AnalysisError
 from ..ir import fmt, walk_stmts, walk_expr, stmt_exprs, dotted, aug_rhs
 from .. import sym, kernels
@@ -376,6 +377,16 @@ def rule_euclidean(ctx, m):
         s1n, l1n, s2n, l2n = pn[0], pn[1], pn[2], pn[3]
         loops, rets, term = _sum_loops(nm, f.body, 'c', s1n, s2n, ('var', l1n), ('var', l2n))
         ok_prefix, ok_pad, detail = decide(nm, f.file, f.line, loops, term, nd)
+        if not (ok_prefix and ok_pad):
+            # the loop summary reads the series through their parameters: a body that reaches them through locals of its own (row pointers, a
+            # `shorter` / `longer` pair, an extracted accumulator) which the normal form could not remove is not summarised faithfully -- no verdict
+            from ..alpha import surviving_new_locals
+            extra = surviving_new_locals(os.path.basename(f.file), nm, pn, f.body)
+            if any(x[0] == 'idx' and x[1][0] == 'cond' for st_ in walk_stmts(f.body) for e_ in stmt_exprs(st_) for x in walk_expr(e_)):
+                extra = set(extra) | {'<series selected by a conditional expression>'}
+            if extra:
+                ctx.undecided('R-PATH', '%s padding with the last element' % nm, 'restructured around new locals %s: not summarised' % sorted(extra))
+                continue
         ctx.check(ok_prefix and ok_pad, 'R-PATH', f.file, nm, 'padding with the last element',
                   'the common prefix [0, min(l1, l2)) pairs element k with element k and the surplus elements of the longer series must be compared with element n-1 '
                   '(n = min(l1, l2)) of the shorter one (prefix ok=%s, padding ok=%s) %s' % (ok_prefix, ok_pad, detail), f.line)
